@@ -172,10 +172,18 @@ def run_impl(sub, cases_path, timeout=1800, extra_env=None):
               drop_stderr=True)
 
 
-def run_impl_resilient(sub, cases, wd, timeout=1800):
+def run_impl_resilient(sub, cases, wd, timeout=1800, chunk=40):
     """for harness subcommands that print '<id> !begin' before each case: when the process dies
     (abort on allocation failure, stack overflow, kill) the case in flight is recorded as
-    '<id> abort' and the run resumes after it"""
+    '<id> abort' and the run resumes after it.  The cases go to the harness [chunk] at a time, one
+    process per chunk, so that the per-process timeout bounds a few cases (a case that does not end)
+    and not a whole thorough run"""
+    if len(cases) > chunk:
+        outs = []
+        for i in range(0, len(cases), chunk):
+            _, o = run_impl_resilient(sub, cases[i:i + chunk], wd, timeout=timeout, chunk=chunk)
+            outs.append(o if o.endswith("\n") or not o else o + "\n")
+        return 0, "".join(outs)
     out_all, rest, rounds = [], list(cases), 0
     while rest and rounds < 50:
         rounds += 1
@@ -308,7 +316,7 @@ class Run:
         with open(cases_path, "w") as f:
             f.write("\n".join(cases) + "\n")
         if getattr(mod, "RESILIENT", False):
-            rc_i, out_i = run_impl_resilient(mod.SUB, cases, wd, timeout=getattr(mod, "IMPL_TIMEOUT", 1800))
+            rc_i, out_i = run_impl_resilient(mod.SUB, cases, wd, timeout=getattr(mod, "IMPL_TIMEOUT", 1800), chunk=getattr(mod, "IMPL_CHUNK", 40))
         else:
             rc_i, out_i = run_impl(mod.SUB, cases_path, timeout=getattr(mod, "IMPL_TIMEOUT", 1800))
         with open(os.path.join(wd, "impl.txt"), "w") as f: f.write(out_i)
